@@ -235,8 +235,6 @@ func runC05(c c05Case) (out lib.Outcome) {
 		if !strings.Contains(info.ExMessage, c.Err.ErrMessageContains()) || !strings.Contains(info.Message, c.Err.ErrMessageContains()) {
 			out.Violate("C05/message", "messages %q / %q lack %q", lib.Short(info.ExMessage, 100), lib.Short(info.Message, 100), c.Err.ErrMessageContains())
 		}
-	} else if c.Framework == "max_response_bytes" && !strings.Contains(info.Message, "max_response_bytes") {
-		out.Violate("C05/message", "cap refusal does not name max_response_bytes: %q", info.Message)
 	}
 	// --- error_kind ---
 	switch {
